@@ -7,6 +7,7 @@ import Driver.D31
 import Driver.DParse
 import Driver.DStr
 import Driver.DLc
+import Driver.DScalars
 /-
 `model`: reads one case per line (`stream<TAB>field…`), prints the model's canonical answer.
 Imports model files only (no Mathlib), so it links as a native executable.
@@ -26,6 +27,7 @@ def dispatch (line : String) : String :=
     else if stream ∈ ["parse"] then cParse stream fs
     else if stream ∈ ["strdecode", "strser"] then cStr stream fs
     else if stream ∈ ["linecol"] then cLc stream fs
+    else if stream ∈ ["scalars"] then cScalars stream fs
     else "unknown-stream"
 
 partial def loop (h : IO.FS.Stream) (out : IO.FS.Stream) : IO Unit := do
